@@ -133,9 +133,13 @@ def node_kills(cfg, node, roots, chs, local_scalar_only=False):
 
 
 class Guards:
-    def __init__(self, cfg, params=(), kinds=ALL_KINDS):
+    def __init__(self, cfg, params=(), kinds=ALL_KINDS, kill=True):
+        """kill=False gives plain edge-dominance: "the test was evaluated with this outcome on
+        every path to n" (used for check-then-act rules where the act itself changes the
+        tested state, e.g. version check -> version increment -> write)."""
         self.cfg = cfg
         self.kinds = kinds
+        self.kill = kill
         self.rd = ReachingDefs(cfg, params)
         self.labels = {}  # key -> (expr, roots, chains)
         for n in cfg.nodes:
@@ -163,7 +167,7 @@ class Guards:
             nid, flag = stack.pop()
             n = self.cfg.nodes[nid]
             out_flag = flag
-            if flag:
+            if flag and self.kill:
                 if nid not in kill:
                     kill[nid] = node_kills(self.cfg, n, roots, chs)
                 if kill[nid]:
